@@ -1,126 +1,174 @@
 (* C10: the high-level transaction code (dns.transaction.Transaction) preserves any simulation between
    two low-level stores: equal results for every call, related private and published states.
-   Generic in the two stores; instantiated in TxnThm.v with the zone version model and the reference store. *)
+   Generic in the two stores, in the two zone configurations and in a relation E between the owner
+   names given on the two sides.  Instances (TxnThm.v):
+     zone version model vs reference store, same names            (refinement)
+     reference store vs itself, names spelled differently / other zone configuration (irrelevance). *)
 From DV Require Import Base.Prelude Model.NameM Model.TxnM.
 From DV Require Import Proofs.NameValid Proofs.TxnName Proofs.TxnStore.
 Open Scope Z_scope.
 
-(* the names handed to the transaction are dns.name.Name objects, i.e. within the DNS limits *)
-Definition arg_valid (a : arg) : Prop :=
-  match a with
-  | AName n | AStr n | ARRset n _ => Valid n
-  | _ => True
-  end.
+#[local] Hint Constructors Forall2 : core.
 
-(* OIter (counting names / rdatasets of the private state) is outside the simulation: see TxnThm.v *)
-Definition op_valid (o : op) : Prop :=
-  match o with
-  | OAdd a | OReplace a | ODelete a | ODeleteExact a => Forall arg_valid a
-  | OSerial _ _ (Some a) => arg_valid a
-  | OGet a _ _ | OExists a | OGetNode a => arg_valid a
-  | OIter => False
-  | _ => True
-  end.
+Section Rel.
+  Variable E : name -> name -> Prop.
 
-Lemma rdataset_from_args_valid d args o rest :
-  Forall arg_valid args -> rdataset_from_args d args = Ok (o, rest) -> Forall arg_valid rest.
-Proof.
-  intros F. unfold rdataset_from_args.
-  destruct args as [|a args]; [destruct d; intros H; inversion H; constructor|].
-  inversion F as [|? ? Fa Fr]; subst.
-  assert (forall (x : res (Z * arg * list arg)),
-            (forall t a1 r1, x = Ok (t, a1, r1) -> Forall arg_valid r1) ->
-            (do x0 <- x; let '(ttl, a1, rest1) := x0 in
-             match a1 with
-             | ARdata ty body aux cls => Ok (Some (from_rdata ttl ty body aux cls), rest1)
-             | _ => Lib eTypeError
-             end) = Ok (o, rest) -> Forall arg_valid rest) as K.
-  { intros x Hx. destruct x as [[[t a1] r1]| |]; cbn [bind]; try discriminate.
-    destruct a1; try discriminate. intros H; inversion H; subst. eapply Hx; eauto. }
-  destruct a; try (apply K; destruct d;
-                   [intros ? ? ? H; inversion H; subst; auto
-                   |try (intros ? ? ? H; discriminate H)]).
-  - intros H; inversion H; subst; auto.
-  - destruct (to_rdataset r); cbn [bind]; intros H; inversion H; subst; auto.
-  - destruct (z >? MAX_TTL); [intros ? ? ? H; discriminate H|].
-    destruct args as [|a2 r2]; intros ? ? ? H; inversion H; subst. inversion Fr; auto.
-Qed.
+  Inductive arg_rel : arg -> arg -> Prop :=
+  | AR_name n1 n2 : E n1 n2 -> arg_rel (AName n1) (AName n2)
+  | AR_str n1 n2 : E n1 n2 -> arg_rel (AStr n1) (AStr n2)
+  | AR_rrset n1 n2 r : E n1 n2 -> arg_rel (ARRset n1 r) (ARRset n2 r)
+  | AR_rds r : arg_rel (ARds r) (ARds r)
+  | AR_int z : arg_rel (AInt z) (AInt z)
+  | AR_rdata ty body aux cls : arg_rel (ARdata ty body aux cls) (ARdata ty body aux cls)
+  | AR_tystr ty : arg_rel (ATyStr ty) (ATyStr ty)
+  | AR_none : arg_rel ANone ANone.
 
-Lemma add_parse_valid a rest n r rest1 :
-  Forall arg_valid (a :: rest) -> add_parse a rest = Ok (n, r, rest1) -> Valid n.
-Proof.
-  intros F. inversion F as [|? ? Fa Fr]; subst. unfold add_parse.
-  destruct a; try discriminate.
-  - destruct (rdataset_from_args false rest) as [[o r1]| |]; cbn [bind fst snd]; try discriminate.
-    destruct o; intros H; inversion H; subst. exact Fa.
-  - destruct (rdataset_from_args false rest) as [[o r1]| |]; cbn [bind fst snd]; try discriminate.
-    destruct o; intros H; inversion H; subst. exact Fa.
-  - destruct (to_rdataset r0); cbn [bind]; intros H; inversion H; subst. exact Fa.
-Qed.
+  Definition oarg_rel (a b : option arg) : Prop :=
+    match a, b with
+    | Some x, Some y => arg_rel x y
+    | None, None => True
+    | _, _ => False
+    end.
+
+  (* OIter (counting names / rdatasets of the private state) is outside the simulation *)
+  Inductive op_rel : op -> op -> Prop :=
+  | OR_add a b : Forall2 arg_rel a b -> op_rel (OAdd a) (OAdd b)
+  | OR_replace a b : Forall2 arg_rel a b -> op_rel (OReplace a) (OReplace b)
+  | OR_delete a b : Forall2 arg_rel a b -> op_rel (ODelete a) (ODelete b)
+  | OR_delete_exact a b : Forall2 arg_rel a b -> op_rel (ODeleteExact a) (ODeleteExact b)
+  | OR_serial v r a b : oarg_rel a b -> op_rel (OSerial v r a) (OSerial v r b)
+  | OR_get a b ty cov : arg_rel a b -> op_rel (OGet a ty cov) (OGet b ty cov)
+  | OR_exists a b : arg_rel a b -> op_rel (OExists a) (OExists b)
+  | OR_changed : op_rel OChanged OChanged
+  | OR_getnode a b : arg_rel a b -> op_rel (OGetNode a) (OGetNode b)
+  | OR_commit : op_rel OCommit OCommit
+  | OR_rollback : op_rel ORollback ORollback.
+
+  Definition spec_rel (x y : txnspec) : Prop :=
+    x_mode x = x_mode y /\ x_style x = x_style y /\ x_fault x = x_fault y /\ Forall2 op_rel (x_ops x) (x_ops y).
+
+  Definition parsed_rel (x y : option rds * list arg) : Prop := fst x = fst y /\ Forall2 arg_rel (snd x) (snd y).
+
+  Lemma rdataset_from_args_rel d a b :
+    Forall2 arg_rel a b -> res_rel parsed_rel (rdataset_from_args d a) (rdataset_from_args d b).
+  Proof.
+    intros F. destruct F as [|x y a b Hxy F]; [destruct d; cbn; [split; cbn; auto|reflexivity]|].
+    assert (forall t a1 b1 r1 r2, arg_rel a1 b1 -> Forall2 arg_rel r1 r2 ->
+              res_rel parsed_rel
+                (match a1 with
+                 | ARdata ty body aux cls => Ok (Some (from_rdata t ty body aux cls), r1)
+                 | _ => Lib eTypeError
+                 end)
+                (match b1 with
+                 | ARdata ty body aux cls => Ok (Some (from_rdata t ty body aux cls), r2)
+                 | _ => Lib eTypeError
+                 end)) as K.
+    { intros t a1 b1 r1 r2 H1 H2. destruct H1; cbn; auto. split; cbn; auto. }
+    destruct Hxy; cbn [rdataset_from_args];
+      try (destruct d; cbn; try reflexivity; split; cbn; auto; fail).
+    - destruct (to_rdataset r); cbn; auto. split; cbn; auto.
+    - destruct d; [cbn; reflexivity|]. cbn [bind].
+      destruct (z >? MAX_TTL); [reflexivity|].
+      destruct F as [|x2 y2 a2 b2 H2 F2]; [reflexivity|]. cbn [bind]. apply K; auto.
+  Qed.
+
+  Definition added_rel (x y : name * rds * list arg) : Prop :=
+    E (fst (fst x)) (fst (fst y)) /\ snd (fst x) = snd (fst y) /\ Forall2 arg_rel (snd x) (snd y).
+
+  Lemma add_parse_rel a b r1 r2 :
+    arg_rel a b -> Forall2 arg_rel r1 r2 -> res_rel added_rel (add_parse a r1) (add_parse b r2).
+  Proof.
+    intros H F. unfold add_parse.
+    assert (forall n1 n2, E n1 n2 ->
+              res_rel added_rel
+                (do y <- rdataset_from_args false r1;
+                 match fst y with Some r => Ok (n1, r, snd y) | None => Internal eAssertion end)
+                (do y <- rdataset_from_args false r2;
+                 match fst y with Some r => Ok (n2, r, snd y) | None => Internal eAssertion end)) as K.
+    { intros n1 n2 He. pose proof (rdataset_from_args_rel false r1 r2 F) as P.
+      destruct (rdataset_from_args false r1) as [[o1 l1]| |], (rdataset_from_args false r2) as [[o2 l2]| |];
+        cbn in P |- *; try contradiction; auto.
+      destruct P as [P1 P2]. cbn in P1, P2. subst o2. destruct o1; cbn; [|reflexivity].
+      unfold added_rel. cbn. auto. }
+    destruct H; cbn; auto.
+    destruct (to_rdataset r); cbn; auto. unfold added_rel. cbn. auto.
+  Qed.
+End Rel.
 
 Section Sim.
   Context {P1 S1 P2 S2 : Type}.
   Variable st1 : store P1 S1.
   Variable st2 : store P2 S2.
-  Variable c : cfg.
+  Variable c1 c2 : cfg.
+  Variable E : name -> name -> Prop.
   Variable RS : S1 -> S2 -> Prop.
   Variable RP : P1 -> P2 -> Prop.
 
+  Hypothesis H_empty : E NameM.empty NameM.empty.
+  Hypothesis H_origin : forall n1 n2, E n1 n2 -> origin_ok c1 n1 = origin_ok c2 n2.
   Hypothesis H_begin : forall z1 z2 b, RP z1 z2 -> RS (s_begin st1 z1 b) (s_begin st2 z2 b).
   Hypothesis H_publish : forall s1 s2, RS s1 s2 -> RP (s_publish st1 s1) (s_publish st2 s2).
-  Hypothesis H_get : forall s1 s2 n ty cov, RS s1 s2 -> Valid n -> s_get st1 s1 n ty cov = s_get st2 s2 n ty cov.
+  Hypothesis H_get : forall s1 s2 n1 n2 ty cov, RS s1 s2 -> E n1 n2 ->
+                                               s_get st1 s1 n1 ty cov = s_get st2 s2 n2 ty cov.
   Hypothesis H_get_cls : forall s2 n ty cov r, s_get st2 s2 n ty cov = Ok (Some r) -> r_cls r = cIN.
-  Hypothesis H_put : forall s1 s2 n r, RS s1 s2 -> Valid n -> r_cls r = cIN ->
-                                       res_rel RS (s_put st1 s1 n r) (s_put st2 s2 n r).
-  Hypothesis H_del_name : forall s1 s2 n, RS s1 s2 -> Valid n ->
-                                          res_rel RS (s_del_name st1 s1 n) (s_del_name st2 s2 n).
-  Hypothesis H_del_rds : forall s1 s2 n ty cov, RS s1 s2 -> Valid n ->
-                                                res_rel RS (s_del_rds st1 s1 n ty cov) (s_del_rds st2 s2 n ty cov).
-  Hypothesis H_exists : forall s1 s2 n, RS s1 s2 -> Valid n -> s_exists st1 s1 n = s_exists st2 s2 n.
-  Hypothesis H_node : forall s1 s2 n, RS s1 s2 -> Valid n -> s_node st1 s1 n = s_node st2 s2 n.
+  Hypothesis H_put : forall s1 s2 n1 n2 r, RS s1 s2 -> E n1 n2 -> r_cls r = cIN ->
+                                           res_rel RS (s_put st1 s1 n1 r) (s_put st2 s2 n2 r).
+  Hypothesis H_del_name : forall s1 s2 n1 n2, RS s1 s2 -> E n1 n2 ->
+                                              res_rel RS (s_del_name st1 s1 n1) (s_del_name st2 s2 n2).
+  Hypothesis H_del_rds : forall s1 s2 n1 n2 ty cov, RS s1 s2 -> E n1 n2 ->
+                                                    res_rel RS (s_del_rds st1 s1 n1 ty cov) (s_del_rds st2 s2 n2 ty cov).
+  Hypothesis H_exists : forall s1 s2 n1 n2, RS s1 s2 -> E n1 n2 -> s_exists st1 s1 n1 = s_exists st2 s2 n2.
+  Hypothesis H_node : forall s1 s2 n1 n2, RS s1 s2 -> E n1 n2 -> s_node st1 s1 n1 = s_node st2 s2 n2.
   Hypothesis H_changed : forall s1 s2, RS s1 s2 -> s_changed st1 s1 = s_changed st2 s2.
 
-  Lemma rr_lib {A B} (R : A -> B -> Prop) e : res_rel R (Lib e) (Lib e).
-  Proof. reflexivity. Qed.
+  Notation arel := (arg_rel E).
 
-  Lemma sim_add rep args s1 s2 :
-    RS s1 s2 -> Forall arg_valid args ->
-    res_rel RS (hl_add st1 c rep args s1) (hl_add st2 c rep args s2).
+  Lemma rds_union_cls e r : r_cls (rds_union e r) = r_cls e.
   Proof.
-    intros HR F. unfold hl_add. destruct args as [|a rest]; [reflexivity|].
-    destruct (add_parse a rest) as [[[n r] rest1]|e|e] eqn:Ep; cbn [bind]; try reflexivity.
-    pose proof (add_parse_valid a rest n r rest1 F Ep) as Vn.
-    destruct (r_cls r =? cIN) eqn:Ec; cbn [negb]; [|reflexivity]. apply Z.eqb_eq in Ec.
-    destruct ((r_ty r =? tSOA) && negb (origin_ok c n)); [reflexivity|].
-    destruct rest1; [|reflexivity].
-    destruct rep; cbn [bind].
-    - apply H_put; auto.
-    - rewrite (H_get s1 s2 n (r_ty r) (r_cov r) HR Vn).
-      destruct (s_get st2 s2 n (r_ty r) (r_cov r)) as [ex|e|e] eqn:G; cbn [bind]; try reflexivity.
-      apply H_put; auto. destruct ex as [e0|]; [|exact Ec].
-      apply H_get_cls in G. unfold rds_union.
-      assert (forall l x, r_cls (fold_left rds_add l x) = r_cls x) as K.
-      { induction l; cbn; intros; [reflexivity|]. rewrite IHl. reflexivity. }
-      rewrite K. unfold update_ttl. destruct (r_items e0); [exact G|]. destruct (_ <? _); exact G.
+    unfold rds_union.
+    assert (forall l x, r_cls (fold_left rds_add l x) = r_cls x) as K.
+    { induction l; cbn; intros; [reflexivity|]. rewrite IHl. reflexivity. }
+    rewrite K. unfold update_ttl. destruct (r_items e); [reflexivity|]. destruct (_ <? _); reflexivity.
   Qed.
 
-  Lemma sim_delete_common exact n ord rest s1 s2 :
-    RS s1 s2 -> Valid n ->
-    res_rel RS (hl_delete_common st1 exact n ord rest s1) (hl_delete_common st2 exact n ord rest s2).
+  Lemma sim_add rep a b s1 s2 :
+    RS s1 s2 -> Forall2 arel a b ->
+    res_rel RS (hl_add st1 c1 rep a s1) (hl_add st2 c2 rep b s2).
   Proof.
-    intros HR Vn. unfold hl_delete_common. destruct rest; [|reflexivity].
-    assert (res_rel RS (if exact then do ex <- s_exists st1 s1 n; if negb ex then Lib eDeleteNotExact else s_del_name st1 s1 n
-                        else s_del_name st1 s1 n)
-                       (if exact then do ex <- s_exists st2 s2 n; if negb ex then Lib eDeleteNotExact else s_del_name st2 s2 n
-                        else s_del_name st2 s2 n)) as Kname.
+    intros HR F. unfold hl_add. destruct F as [|x y a b Hxy F]; [reflexivity|].
+    pose proof (add_parse_rel E x y a b Hxy F) as P.
+    destruct (add_parse x a) as [[[n1 r1] l1]|e|e], (add_parse y b) as [[[n2 r2] l2]|e'|e'];
+      cbn in P |- *; try contradiction; auto.
+    destruct P as (He & Hr & Hl). cbn in He, Hr, Hl. subst r2.
+    destruct (r_cls r1 =? cIN) eqn:Ec; cbn [negb]; [|reflexivity]. apply Z.eqb_eq in Ec.
+    rewrite (H_origin n1 n2 He).
+    destruct ((r_ty r1 =? tSOA) && negb (origin_ok c2 n2)); [reflexivity|].
+    destruct Hl; [|reflexivity].
+    destruct rep; cbn [bind].
+    - apply H_put; auto.
+    - rewrite (H_get s1 s2 n1 n2 (r_ty r1) (r_cov r1) HR He).
+      destruct (s_get st2 s2 n2 (r_ty r1) (r_cov r1)) as [ex|e|e] eqn:G; cbn [bind]; try reflexivity.
+      apply H_put; auto. destruct ex as [e0|]; [|exact Ec].
+      apply H_get_cls in G. rewrite rds_union_cls. exact G.
+  Qed.
+
+  Lemma sim_delete_common exact n1 n2 ord r1 r2 s1 s2 :
+    RS s1 s2 -> E n1 n2 -> Forall2 arel r1 r2 ->
+    res_rel RS (hl_delete_common st1 exact n1 ord r1 s1) (hl_delete_common st2 exact n2 ord r2 s2).
+  Proof.
+    intros HR He F. unfold hl_delete_common. destruct F; [|reflexivity].
+    assert (res_rel RS (if exact then do ex <- s_exists st1 s1 n1; if negb ex then Lib eDeleteNotExact else s_del_name st1 s1 n1
+                        else s_del_name st1 s1 n1)
+                       (if exact then do ex <- s_exists st2 s2 n2; if negb ex then Lib eDeleteNotExact else s_del_name st2 s2 n2
+                        else s_del_name st2 s2 n2)) as Kname.
     { destruct exact; [|apply H_del_name; auto].
-      rewrite (H_exists s1 s2 n HR Vn). destruct (s_exists st2 s2 n) as [b|e|e]; cbn [bind]; try reflexivity.
+      rewrite (H_exists s1 s2 n1 n2 HR He). destruct (s_exists st2 s2 n2) as [b|e|e]; cbn [bind]; try reflexivity.
       destruct b; cbn [negb]; [apply H_del_name; auto|reflexivity]. }
     destruct ord as [[cls ty cov ttl items]|]; [|exact Kname].
     destruct items as [|i items]; [exact Kname|].
     destruct (cls =? cIN); cbn [negb]; [|reflexivity].
-    rewrite (H_get s1 s2 n ty cov HR Vn).
-    destruct (s_get st2 s2 n ty cov) as [ex|e|e] eqn:G; cbn [bind]; try reflexivity.
+    rewrite (H_get s1 s2 n1 n2 ty cov HR He).
+    destruct (s_get st2 s2 n2 ty cov) as [ex|e|e] eqn:G; cbn [bind]; try reflexivity.
     destruct ex as [e0|]; [|destruct exact; [reflexivity|exact HR]].
     destruct (exact && _); [reflexivity|].
     destruct (r_items (rds_difference e0 _)) eqn:D.
@@ -128,101 +176,65 @@ Section Sim.
     - apply H_put; auto. apply H_get_cls in G. exact G.
   Qed.
 
-  Lemma sim_delete exact args s1 s2 :
-    RS s1 s2 -> Forall arg_valid args ->
-    res_rel RS (hl_delete st1 exact args s1) (hl_delete st2 exact args s2).
+  Lemma make_type_rel a b : arel a b -> make_type a = make_type b.
+  Proof. intros H; destruct H; reflexivity. Qed.
+
+  Lemma is_type_arg_rel a b : arel a b -> is_type_arg a = is_type_arg b.
+  Proof. intros H; destruct H; reflexivity. Qed.
+
+  Lemma sim_delete_bytype exact n1 n2 t1 t2 r1 r2 s1 s2 :
+    RS s1 s2 -> E n1 n2 -> arel t1 t2 -> Forall2 arel r1 r2 ->
+    res_rel RS (hl_delete_bytype st1 exact n1 t1 r1 s1) (hl_delete_bytype st2 exact n2 t2 r2 s2).
   Proof.
-    intros HR F. unfold hl_delete. destruct args as [|a rest]; [reflexivity|].
-    inversion F as [|? ? Fa Fr]; subst.
-    assert (forall n, Valid n ->
+    intros HR He Ht F. unfold hl_delete_bytype. rewrite (make_type_rel t1 t2 Ht).
+    destruct (make_type t2) as [ty|e|e]; cbn [bind]; try reflexivity.
+    assert (res_rel (fun x y => fst x = fst y /\ Forall2 arel (snd x) (snd y))
+              (match r1 with [] => Ok (0, []) | c0 :: rest2 => do cv <- make_type c0; Ok (cv, rest2) end)
+              (match r2 with [] => Ok (0, []) | c0 :: rest2 => do cv <- make_type c0; Ok (cv, rest2) end)) as K.
+    { destruct F as [|x y r1 r2 Hxy F]; cbn; [split; cbn; auto|].
+      rewrite (make_type_rel x y Hxy). destruct (make_type y); cbn; auto. }
+    destruct (match r1 with [] => Ok (0, []) | c0 :: rest2 => do cv <- make_type c0; Ok (cv, rest2) end) as [[cov1 l1]|e|e],
+             (match r2 with [] => Ok (0, []) | c0 :: rest2 => do cv <- make_type c0; Ok (cv, rest2) end) as [[cov2 l2]|e'|e'];
+      cbn in K |- *; try contradiction; auto.
+    destruct K as [K1 K2]. cbn in K1, K2. subst cov2.
+    destruct K2; [|reflexivity].
+    rewrite (H_get s1 s2 n1 n2 ty cov1 HR He).
+    destruct (s_get st2 s2 n2 ty cov1) as [ex|e|e]; cbn [bind]; try reflexivity.
+    destruct ex; [apply H_del_rds; auto|destruct exact; [reflexivity|exact HR]].
+  Qed.
+
+  Lemma sim_delete exact a b s1 s2 :
+    RS s1 s2 -> Forall2 arel a b ->
+    res_rel RS (hl_delete st1 exact a s1) (hl_delete st2 exact b s2).
+  Proof.
+    intros HR F. unfold hl_delete. destruct F as [|x y a b Hxy F]; [reflexivity|].
+    assert (forall n1 n2, E n1 n2 ->
               res_rel RS
-                (match rest with
-                 | (AInt _ | ATyStr _ | AStr _) as t :: rest1 =>
-                     do ty <- make_type t;
-                     do x <- match rest1 with
-                             | [] => Ok (0, [])
-                             | c0 :: rest2 => do cv <- make_type c0; Ok (cv, rest2)
-                             end;
-                     let '(cov, rest2) := x in
-                     match rest2 with
-                     | _ :: _ => Lib eTypeError
-                     | [] =>
-                         do ex <- s_get st1 s1 n ty cov;
-                         match ex with
-                         | None => if exact then Lib eDeleteNotExact else Ok s1
-                         | Some _ => s_del_rds st1 s1 n ty cov
-                         end
-                     end
-                 | _ => do y <- rdataset_from_args true rest; hl_delete_common st1 exact n (fst y) (snd y) s1
+                (match a with
+                 | t :: rest1 =>
+                     if is_type_arg t then hl_delete_bytype st1 exact n1 t rest1 s1
+                     else do y0 <- rdataset_from_args true a; hl_delete_common st1 exact n1 (fst y0) (snd y0) s1
+                 | [] => do y0 <- rdataset_from_args true a; hl_delete_common st1 exact n1 (fst y0) (snd y0) s1
                  end)
-                (match rest with
-                 | (AInt _ | ATyStr _ | AStr _) as t :: rest1 =>
-                     do ty <- make_type t;
-                     do x <- match rest1 with
-                             | [] => Ok (0, [])
-                             | c0 :: rest2 => do cv <- make_type c0; Ok (cv, rest2)
-                             end;
-                     let '(cov, rest2) := x in
-                     match rest2 with
-                     | _ :: _ => Lib eTypeError
-                     | [] =>
-                         do ex <- s_get st2 s2 n ty cov;
-                         match ex with
-                         | None => if exact then Lib eDeleteNotExact else Ok s2
-                         | Some _ => s_del_rds st2 s2 n ty cov
-                         end
-                     end
-                 | _ => do y <- rdataset_from_args true rest; hl_delete_common st2 exact n (fst y) (snd y) s2
-                 end)) as Kn.
-    { intros n Vn.
-      assert (res_rel RS (do y <- rdataset_from_args true rest; hl_delete_common st1 exact n (fst y) (snd y) s1)
-                         (do y <- rdataset_from_args true rest; hl_delete_common st2 exact n (fst y) (snd y) s2)) as Kc.
-      { destruct (rdataset_from_args true rest) as [[o r1]| |]; cbn [bind]; try reflexivity.
-        apply sim_delete_common; auto. }
-      assert (forall t rest1,
-                res_rel RS
-                  (do ty <- make_type t;
-                   do x <- match rest1 with
-                           | [] => Ok (0, [])
-                           | c0 :: rest2 => do cv <- make_type c0; Ok (cv, rest2)
-                           end;
-                   let '(cov, rest2) := x in
-                   match rest2 with
-                   | _ :: _ => Lib eTypeError
-                   | [] => do ex <- s_get st1 s1 n ty cov;
-                           match ex with
-                           | None => if exact then Lib eDeleteNotExact else Ok s1
-                           | Some _ => s_del_rds st1 s1 n ty cov
-                           end
-                   end)
-                  (do ty <- make_type t;
-                   do x <- match rest1 with
-                           | [] => Ok (0, [])
-                           | c0 :: rest2 => do cv <- make_type c0; Ok (cv, rest2)
-                           end;
-                   let '(cov, rest2) := x in
-                   match rest2 with
-                   | _ :: _ => Lib eTypeError
-                   | [] => do ex <- s_get st2 s2 n ty cov;
-                           match ex with
-                           | None => if exact then Lib eDeleteNotExact else Ok s2
-                           | Some _ => s_del_rds st2 s2 n ty cov
-                           end
-                   end)) as Kt.
-      { intros t rest1. destruct (make_type t) as [ty|e|e]; cbn [bind]; try reflexivity.
-        destruct (match rest1 with
-                  | [] => Ok (0, [])
-                  | c0 :: rest2 => do cv <- make_type c0; Ok (cv, rest2)
-                  end) as [[cov rest2]|e|e]; cbn [bind]; try reflexivity.
-        destruct rest2; [|reflexivity].
-        rewrite (H_get s1 s2 n ty cov HR Vn).
-        destruct (s_get st2 s2 n ty cov) as [ex|e|e]; cbn [bind]; try reflexivity.
-        destruct ex; [apply H_del_rds; auto|destruct exact; [reflexivity|exact HR]]. }
-      destruct rest as [|t rest1]; [exact Kc|].
-      destruct t; try exact Kc; apply Kt. }
-    destruct a; try reflexivity.
-    - apply Kn. exact Fa.
-    - apply Kn. exact Fa.
+                (match b with
+                 | t :: rest1 =>
+                     if is_type_arg t then hl_delete_bytype st2 exact n2 t rest1 s2
+                     else do y0 <- rdataset_from_args true b; hl_delete_common st2 exact n2 (fst y0) (snd y0) s2
+                 | [] => do y0 <- rdataset_from_args true b; hl_delete_common st2 exact n2 (fst y0) (snd y0) s2
+                 end)) as K.
+    { intros n1 n2 He.
+      assert (res_rel RS (do y0 <- rdataset_from_args true a; hl_delete_common st1 exact n1 (fst y0) (snd y0) s1)
+                         (do y0 <- rdataset_from_args true b; hl_delete_common st2 exact n2 (fst y0) (snd y0) s2)) as Kc.
+      { pose proof (rdataset_from_args_rel E true a b F) as P.
+        destruct (rdataset_from_args true a) as [[o1 l1]| |], (rdataset_from_args true b) as [[o2 l2]| |];
+          cbn in P |- *; try contradiction; auto.
+        destruct P as [Q1 Q2]. cbn in Q1, Q2. subst o2. apply sim_delete_common; auto. }
+      destruct F as [|t1 t2 a b Ht F]; [exact Kc|].
+      rewrite (is_type_arg_rel t1 t2 Ht). destruct (is_type_arg t2); [|exact Kc].
+      apply sim_delete_bytype; auto. }
+    destruct Hxy; try reflexivity.
+    - apply K; auto.
+    - apply K; auto.
     - apply sim_delete_common; auto.
   Qed.
 
@@ -240,25 +252,28 @@ Section Sim.
     unfold RT, with_st. cbn. repeat split; congruence.
   Qed.
 
-  Lemma name_of_arg_valid a n : arg_valid a -> name_of_arg a = Ok n -> Valid n.
-  Proof. destruct a; cbn; intros V H; inversion H; subst; auto. Qed.
+  Lemma name_of_arg_rel a b :
+    arel a b -> res_rel E (name_of_arg a) (name_of_arg b).
+  Proof. intros H; destruct H; cbn; auto. Qed.
 
-  Lemma sim_update_serial value rel nm t1 t2 :
-    RT t1 t2 -> match nm with Some a => arg_valid a | None => True end ->
-    res_rel RT (hl_update_serial st1 c value rel nm t1) (hl_update_serial st2 c value rel nm t2).
+  Lemma sim_update_serial value rel a b t1 t2 :
+    RT t1 t2 -> oarg_rel E a b ->
+    res_rel RT (hl_update_serial st1 c1 value rel a t1) (hl_update_serial st2 c2 value rel b t2).
   Proof.
     intros HT Va. pose proof HT as (HR & Hro & Hen). unfold hl_update_serial. rewrite Hen.
     destruct (t_ended t2); [reflexivity|]. destruct (value <? 0); [reflexivity|].
-    destruct (match nm with None => Ok NameM.empty | Some a => name_of_arg a end) as [n|e|e] eqn:En;
-      cbn [bind]; try reflexivity.
-    assert (Valid n) as Vn.
-    { destruct nm as [a|]; [eapply name_of_arg_valid; eauto|]. inversion En; subst. apply Valid_nil. }
-    rewrite (H_get _ _ n tSOA 0 HR Vn).
-    destruct (s_get st2 (t_st t2) n tSOA 0) as [ex|e|e]; cbn [bind]; try reflexivity.
+    assert (res_rel E (match a with None => Ok NameM.empty | Some x => name_of_arg x end)
+                      (match b with None => Ok NameM.empty | Some x => name_of_arg x end)) as Kn.
+    { destruct a, b; cbn in Va; try contradiction; [apply name_of_arg_rel; auto|exact H_empty]. }
+    destruct (match a with None => Ok NameM.empty | Some x => name_of_arg x end) as [n1|e|e],
+             (match b with None => Ok NameM.empty | Some x => name_of_arg x end) as [n2|e'|e'];
+      cbn in Kn |- *; try contradiction; auto.
+    rewrite (H_get _ _ n1 n2 tSOA 0 HR Kn).
+    destruct (s_get st2 (t_st t2) n2 tSOA 0) as [ex|e|e]; cbn [bind]; try reflexivity.
     destruct ex as [e0|]; [|reflexivity]. destruct (r_items e0) as [|[body serial] ?]; [reflexivity|].
     destruct (if rel then serial_add serial value else Ok (value mod 4294967296)) as [ser|e|e]; cbn [bind]; try reflexivity.
     apply sim_write; [exact HT|]. intros s1 s2 HR'. apply sim_add; auto.
-    constructor; [exact Vn|constructor; [exact Logic.I|constructor]].
+    constructor; [constructor; exact Kn|constructor; [constructor|constructor]].
   Qed.
 
   Definition RE (x : P1 * txn (S:=S1)) (y : P2 * txn (S:=S2)) : Prop := RP (fst x) (fst y) /\ RT (snd x) (snd y).
@@ -275,8 +290,8 @@ Section Sim.
   Definition RStep (x : out * P1 * txn (S:=S1)) (y : out * P2 * txn (S:=S2)) : Prop :=
     fst (fst x) = fst (fst y) /\ RP (snd (fst x)) (snd (fst y)) /\ RT (snd x) (snd y).
 
-  Lemma sim_step o z1 z2 t1 t2 :
-    op_valid o -> RP z1 z2 -> RT t1 t2 -> res_rel RStep (step st1 c o z1 t1) (step st2 c o z2 t2).
+  Lemma sim_step o1 o2 z1 z2 t1 t2 :
+    op_rel E o1 o2 -> RP z1 z2 -> RT t1 t2 -> res_rel RStep (step st1 c1 o1 z1 t1) (step st2 c2 o2 z2 t2).
   Proof.
     intros Vo HP HT. pose proof HT as (HR & Hro & Hen).
     assert (forall (x : res (txn (S:=S1))) (y : res (txn (S:=S2))), res_rel RT x y ->
@@ -287,28 +302,30 @@ Section Sim.
     { intros commit. pose proof (sim_end commit z1 z2 t1 t2 HP HT) as H.
       destruct (hl_end st1 commit z1 t1), (hl_end st2 commit z2 t2); cbn in *; try contradiction; auto.
       destruct H. unfold RStep. cbn. auto. }
-    destruct o; cbn [step op_valid] in *.
+    destruct Vo; cbn [step].
     - apply Kw, sim_write; [exact HT|]. intros; apply sim_add; auto.
     - apply Kw, sim_write; [exact HT|]. intros; apply sim_add; auto.
     - apply Kw, sim_write; [exact HT|]. intros; apply sim_delete; auto.
     - apply Kw, sim_write; [exact HT|]. intros; apply sim_delete; auto.
     - apply Kw, sim_update_serial; auto.
     - rewrite Hen. destruct (t_ended t2); [reflexivity|].
-      destruct (name_of_arg n) as [n0|e|e] eqn:En; cbn [bind]; try reflexivity.
+      pose proof (name_of_arg_rel a b H) as Kn.
+      destruct (name_of_arg a) as [n1|e|e], (name_of_arg b) as [n2|e'|e']; cbn [bind res_rel] in Kn |- *; try contradiction; auto.
       destruct (make_type (AInt ty)) as [ty'|e|e]; cbn [bind]; try reflexivity.
       destruct (make_type (AInt cov)) as [cov'|e|e]; cbn [bind]; try reflexivity.
-      rewrite (H_get _ _ n0 ty' cov' HR (name_of_arg_valid _ _ Vo En)).
-      destruct (s_get st2 (t_st t2) n0 ty' cov'); cbn [bind]; try reflexivity. unfold RStep. cbn. auto.
+      rewrite (H_get _ _ n1 n2 ty' cov' HR Kn).
+      destruct (s_get st2 (t_st t2) n2 ty' cov'); cbn [bind]; try reflexivity. unfold RStep. cbn. auto.
     - rewrite Hen. destruct (t_ended t2); [reflexivity|].
-      destruct (name_of_arg n) as [n0|e|e] eqn:En; cbn [bind]; try reflexivity.
-      rewrite (H_exists _ _ n0 HR (name_of_arg_valid _ _ Vo En)).
-      destruct (s_exists st2 (t_st t2) n0); cbn [bind]; try reflexivity. unfold RStep. cbn. auto.
+      pose proof (name_of_arg_rel a b H) as Kn.
+      destruct (name_of_arg a) as [n1|e|e], (name_of_arg b) as [n2|e'|e']; cbn [bind res_rel] in Kn |- *; try contradiction; auto.
+      rewrite (H_exists _ _ n1 n2 HR Kn).
+      destruct (s_exists st2 (t_st t2) n2); cbn [bind]; try reflexivity. unfold RStep. cbn. auto.
     - rewrite Hen, Hro, (H_changed _ _ HR). destruct (t_ended t2); [reflexivity|]. unfold RStep. cbn. auto.
-    - contradiction.
     - rewrite Hen. destruct (t_ended t2); [reflexivity|].
-      destruct (name_of_arg n) as [n0|e|e] eqn:En; cbn [bind]; try reflexivity.
-      rewrite (H_node _ _ n0 HR (name_of_arg_valid _ _ Vo En)).
-      destruct (s_node st2 (t_st t2) n0); cbn [bind]; try reflexivity. unfold RStep. cbn. auto.
+      pose proof (name_of_arg_rel a b H) as Kn.
+      destruct (name_of_arg a) as [n1|e|e], (name_of_arg b) as [n2|e'|e']; cbn [bind res_rel] in Kn |- *; try contradiction; auto.
+      rewrite (H_node _ _ n1 n2 HR Kn).
+      destruct (s_node st2 (t_st t2) n2); cbn [bind]; try reflexivity. unfold RStep. cbn. auto.
     - apply Ke.
     - apply Ke.
   Qed.
@@ -324,81 +341,116 @@ Section Sim.
   Definition ROut (x : list (res out) * P1) (y : list (res out) * P2) : Prop :=
     fst x = fst y /\ RP (snd x) (snd y).
 
-  Lemma sim_run_manual ops : forall z1 z2 t1 t2,
-    Forall op_valid ops -> RP z1 z2 -> RT t1 t2 ->
-    ROut (run_manual st1 c ops z1 t1) (run_manual st2 c ops z2 t2).
+  Lemma sim_run_manual ops1 ops2 : Forall2 (op_rel E) ops1 ops2 -> forall z1 z2 t1 t2,
+    RP z1 z2 -> RT t1 t2 ->
+    ROut (run_manual st1 c1 ops1 z1 t1) (run_manual st2 c2 ops2 z2 t2).
   Proof.
-    induction ops as [|o ops IH]; intros z1 z2 t1 t2 F HP HT; cbn [run_manual].
+    induction 1 as [|o1 o2 ops1 ops2 Fo Fr IH]; intros z1 z2 t1 t2 HP HT; cbn [run_manual].
     - split; [reflexivity|]. apply sim_exit; auto.
-    - inversion F as [|? ? Fo Fr]; subst.
-      pose proof (sim_step o z1 z2 t1 t2 Fo HP HT) as H.
-      destruct (step st1 c o z1 t1) as [[[x1 z1'] t1']|e1|e1], (step st2 c o z2 t2) as [[[x2 z2'] t2']|e2|e2];
+    - pose proof (sim_step o1 o2 z1 z2 t1 t2 Fo HP HT) as H.
+      destruct (step st1 c1 o1 z1 t1) as [[[x1 z1'] t1']|e1|e1], (step st2 c2 o2 z2 t2) as [[[x2 z2'] t2']|e2|e2];
         cbn in H; try contradiction.
       + destruct H as (Ho & HP' & HT'). cbn in Ho, HP', HT'. subst x2.
-        specialize (IH z1' z2' t1' t2' Fr HP' HT').
-        destruct (run_manual st1 c ops z1' t1'), (run_manual st2 c ops z2' t2'). destruct IH as [I1 I2].
+        specialize (IH z1' z2' t1' t2' HP' HT').
+        destruct (run_manual st1 c1 ops1 z1' t1'), (run_manual st2 c2 ops2 z2' t2'). destruct IH as [I1 I2].
         cbn in *. split; cbn; [congruence|exact I2].
-      + subst e2. specialize (IH z1 z2 t1 t2 Fr HP HT).
-        destruct (run_manual st1 c ops z1 t1), (run_manual st2 c ops z2 t2). destruct IH as [I1 I2].
+      + subst e2. specialize (IH z1 z2 t1 t2 HP HT).
+        destruct (run_manual st1 c1 ops1 z1 t1), (run_manual st2 c2 ops2 z2 t2). destruct IH as [I1 I2].
         cbn in *. split; cbn; [congruence|exact I2].
-      + subst e2. specialize (IH z1 z2 t1 t2 Fr HP HT).
-        destruct (run_manual st1 c ops z1 t1), (run_manual st2 c ops z2 t2). destruct IH as [I1 I2].
+      + subst e2. specialize (IH z1 z2 t1 t2 HP HT).
+        destruct (run_manual st1 c1 ops1 z1 t1), (run_manual st2 c2 ops2 z2 t2). destruct IH as [I1 I2].
         cbn in *. split; cbn; [congruence|exact I2].
   Qed.
 
-  Lemma sim_run_with ops : forall fault z1 z2 t1 t2,
-    Forall op_valid ops -> RP z1 z2 -> RT t1 t2 ->
-    ROut (run_with st1 c ops fault z1 t1) (run_with st2 c ops fault z2 t2).
+  Lemma sim_run_with ops1 ops2 : Forall2 (op_rel E) ops1 ops2 -> forall fault z1 z2 t1 t2,
+    RP z1 z2 -> RT t1 t2 ->
+    ROut (run_with st1 c1 ops1 fault z1 t1) (run_with st2 c2 ops2 fault z2 t2).
   Proof.
-    induction ops as [|o ops IH]; intros fault z1 z2 t1 t2 F HP HT.
+    induction 1 as [|o1 o2 ops1 ops2 Fo Fr IH]; intros fault z1 z2 t1 t2 HP HT.
     - destruct fault as [[|k]|]; cbn [run_with]; (split; [reflexivity|apply sim_exit; auto]).
     - destruct fault as [[|k]|]; cbn [run_with].
       + split; [reflexivity|apply sim_exit; auto].
-      + inversion F as [|? ? Fo Fr]; subst.
-        pose proof (sim_step o z1 z2 t1 t2 Fo HP HT) as H.
-        destruct (step st1 c o z1 t1) as [[[x1 z1'] t1']|e1|e1], (step st2 c o z2 t2) as [[[x2 z2'] t2']|e2|e2];
+      + pose proof (sim_step o1 o2 z1 z2 t1 t2 Fo HP HT) as H.
+        destruct (step st1 c1 o1 z1 t1) as [[[x1 z1'] t1']|e1|e1], (step st2 c2 o2 z2 t2) as [[[x2 z2'] t2']|e2|e2];
           cbn in H; try contradiction.
         * destruct H as (Ho & HP' & HT'). cbn in Ho, HP', HT'. subst x2.
-          specialize (IH (Some k) z1' z2' t1' t2' Fr HP' HT').
-          destruct (run_with st1 c ops (Some k) z1' t1'), (run_with st2 c ops (Some k) z2' t2'). destruct IH as [I1 I2].
+          specialize (IH (Some k) z1' z2' t1' t2' HP' HT').
+          destruct (run_with st1 c1 ops1 (Some k) z1' t1'), (run_with st2 c2 ops2 (Some k) z2' t2'). destruct IH as [I1 I2].
           cbn in *. split; cbn; [congruence|exact I2].
         * subst e2. split; [reflexivity|apply sim_exit; auto].
         * subst e2. split; [reflexivity|apply sim_exit; auto].
-      + inversion F as [|? ? Fo Fr]; subst.
-        pose proof (sim_step o z1 z2 t1 t2 Fo HP HT) as H.
-        destruct (step st1 c o z1 t1) as [[[x1 z1'] t1']|e1|e1], (step st2 c o z2 t2) as [[[x2 z2'] t2']|e2|e2];
+      + pose proof (sim_step o1 o2 z1 z2 t1 t2 Fo HP HT) as H.
+        destruct (step st1 c1 o1 z1 t1) as [[[x1 z1'] t1']|e1|e1], (step st2 c2 o2 z2 t2) as [[[x2 z2'] t2']|e2|e2];
           cbn in H; try contradiction.
         * destruct H as (Ho & HP' & HT'). cbn in Ho, HP', HT'. subst x2.
-          specialize (IH None z1' z2' t1' t2' Fr HP' HT').
-          destruct (run_with st1 c ops None z1' t1'), (run_with st2 c ops None z2' t2'). destruct IH as [I1 I2].
+          specialize (IH None z1' z2' t1' t2' HP' HT').
+          destruct (run_with st1 c1 ops1 None z1' t1'), (run_with st2 c2 ops2 None z2' t2'). destruct IH as [I1 I2].
           cbn in *. split; cbn; [congruence|exact I2].
         * subst e2. split; [reflexivity|apply sim_exit; auto].
         * subst e2. split; [reflexivity|apply sim_exit; auto].
   Qed.
-
-  Definition spec_valid (x : txnspec) : Prop := Forall op_valid (x_ops x).
 
   Lemma sim_open mode z1 z2 : RP z1 z2 -> RT (open_txn st1 mode z1) (open_txn st2 mode z2).
   Proof.
     intros HP. unfold open_txn. destruct (mode =? 2); unfold RT; cbn; auto.
   Qed.
 
-  Lemma sim_run_txn x z1 z2 :
-    spec_valid x -> RP z1 z2 -> ROut (run_txn st1 c x z1) (run_txn st2 c x z2).
+  Lemma sim_run_txn x y z1 z2 :
+    spec_rel E x y -> RP z1 z2 -> ROut (run_txn st1 c1 x z1) (run_txn st2 c2 y z2).
   Proof.
-    intros V HP. unfold run_txn. destruct (x_style x =? 1).
+    intros (Hm & Hs & Hf & Ho) HP. unfold run_txn. rewrite Hm, Hs, Hf. destruct (x_style y =? 1).
     - apply sim_run_with; auto. apply sim_open; auto.
     - apply sim_run_manual; auto. apply sim_open; auto.
   Qed.
 
-  Theorem sim_run_hist h : forall z1 z2,
-    Forall spec_valid h -> RP z1 z2 ->
-    Forall2 ROut (run_hist st1 c h z1) (run_hist st2 c h z2).
+  Theorem sim_run_hist h1 h2 : Forall2 (spec_rel E) h1 h2 -> forall z1 z2,
+    RP z1 z2 ->
+    Forall2 ROut (run_hist st1 c1 h1 z1) (run_hist st2 c2 h2 z2).
   Proof.
-    induction h as [|x h IH]; intros z1 z2 F HP; cbn [run_hist]; [constructor|].
-    inversion F as [|? ? Fx Fh]; subst.
-    pose proof (sim_run_txn x z1 z2 Fx HP) as H.
-    destruct (run_txn st1 c x z1) as [o1 z1'], (run_txn st2 c x z2) as [o2 z2'].
-    constructor; [exact H|]. apply IH; [exact Fh|]. destruct H. auto.
+    induction 1 as [|x y h1 h2 Fx Fh IH]; intros z1 z2 HP; cbn [run_hist]; [constructor|].
+    pose proof (sim_run_txn x y z1 z2 Fx HP) as H.
+    destruct (run_txn st1 c1 x z1) as [o1 z1'], (run_txn st2 c2 y z2) as [o2 z2'].
+    constructor; [exact H|]. apply IH. destruct H. auto.
   Qed.
 End Sim.
+
+(* ---------------------------------------------------------------- the diagonal: one list of operations *)
+(* the names handed to the transaction are dns.name.Name objects, i.e. within the DNS limits *)
+Definition arg_valid (a : arg) : Prop :=
+  match a with
+  | AName n | AStr n | ARRset n _ => Valid n
+  | _ => True
+  end.
+
+Definition op_valid (o : op) : Prop :=
+  match o with
+  | OAdd a | OReplace a | ODelete a | ODeleteExact a => Forall arg_valid a
+  | OSerial _ _ (Some a) => arg_valid a
+  | OGet a _ _ | OExists a | OGetNode a => arg_valid a
+  | OIter => False
+  | _ => True
+  end.
+
+Definition spec_valid (x : txnspec) : Prop := Forall op_valid (x_ops x).
+
+Definition EV (n1 n2 : name) : Prop := n1 = n2 /\ Valid n1.
+
+Lemma arg_valid_rel a : arg_valid a -> arg_rel EV a a.
+Proof. destruct a; cbn; intros H; constructor; split; cbn; auto. Qed.
+
+Lemma args_valid_rel a : Forall arg_valid a -> Forall2 (arg_rel EV) a a.
+Proof. induction 1; constructor; auto using arg_valid_rel. Qed.
+
+Lemma op_valid_rel o : op_valid o -> op_rel EV o o.
+Proof.
+  destruct o; cbn; intros H; try contradiction; constructor; auto using args_valid_rel, arg_valid_rel.
+  destruct n; cbn; auto using arg_valid_rel.
+Qed.
+
+Lemma spec_valid_rel x : spec_valid x -> spec_rel EV x x.
+Proof.
+  intros H. repeat split; cbn; auto. induction H; constructor; auto using op_valid_rel.
+Qed.
+
+Lemma hist_valid_rel h : Forall spec_valid h -> Forall2 (spec_rel EV) h h.
+Proof. induction 1; constructor; auto using spec_valid_rel. Qed.
